@@ -75,6 +75,7 @@ DIAG_KINDS = [
     (r'loop invariant not satisfied', 'loop_invariant', True),
     (r'loop ensures not satisfied|loop postcondition', 'loop_invariant', True),
     (r'assertion failed', 'assertion', True),
+    (r'unable to prove post-condition of closure|closure.*(requires|precondition)', 'closure_contract', True),
     (r'decreases not satisfied|could not prove termination', 'decreases', True),
     (r'unreachable|unreached', 'assertion', True),
     (r'Resource limit \(rlimit\) exceeded|rlimit', 'rlimit', True),
